@@ -1257,7 +1257,15 @@ func modI(x, y Integer) (Integer, error) {
 	if y == 0 {
 		return 0, exceptionalValueZeroDivisor
 	}
-	return x - (Integer(math.Floor(float64(x)/float64(y))) * y), nil
+	if y == -1 {
+		return 0, nil // Avoids minInt % -1.
+	}
+	// The result has the same sign as y. Computing it through float64 loses precision beyond 2^53.
+	r := x % y
+	if r != 0 && (r < 0) != (y < 0) {
+		r += y
+	}
+	return r, nil
 }
 
 func negI(x Integer) (Integer, error) {
@@ -1301,7 +1309,12 @@ func intFloorDivI(x, y Integer) (Integer, error) {
 	case y == 0:
 		return 0, exceptionalValueZeroDivisor
 	default:
-		return Integer(math.Floor(float64(x) / float64(y))), nil
+		// Rounds toward negative infinity. Computing it through float64 loses precision beyond 2^53.
+		q := x / y
+		if x%y != 0 && (x < 0) != (y < 0) {
+			q--
+		}
+		return q, nil
 	}
 }
 
